@@ -690,6 +690,7 @@ func (d *Driver) notify(o *elObj, kind string) {
 		cb(o.conn)
 		d.mu.Lock()
 		ne.DoneStep, ne.DoneOrd = d.step, d.h.nextOrd()
+		d.logf("notif-done %s i%d", kind, o.in.idx)
 		d.mu.Unlock()
 		d.signal()
 	}()
